@@ -147,9 +147,9 @@ def alphabet(n, full=True):
                                                "rolling_max", "diff", "ema_timed", "tail2", "var")]
     for name in plain:
         A.append((name, lambda g, c, raw, GB, f=cat[name].fn: f(g, c), False))
-    masked = ["size", "sum", "first", "sum_t", "cumsum", "median", "rolling_sum", "ema_alpha"]
+    masked = ["size", "sum", "first", "sum_t", "cumsum", "cumcount", "median", "rolling_sum", "ema_alpha"]
     if not full:
-        masked = ["sum", "first", "sum_t", "cumsum", "median"]
+        masked = ["sum", "first", "sum_t", "cumsum", "cumcount", "median"]
     for name in masked:
         A.append((name + "@bool", lambda g, c, raw, GB, f=cat[name].fn: f(g, c), "bool"))
     for name in ("sum", "first", "size"):
@@ -231,7 +231,7 @@ REDUCED = {  # one mutator per class of successor state + the observers that rea
     "sum", "median", "sum_t", "median_t", "groups", "cumsum", "head1", "rolling_sum_g", "ema_alpha",
     "sum@bool", "first@bool", "size@slice", "sum@pos", "last_t", "cumsum@bool", "median@bool",
     "rolling_sum", "count_ikey@bool", "min:i4@bool", "size", "copy:last_t", "first@slice",
-    "last:u1@bool", "sum_t:badlen", "cumsum:badmask", "apply_t:raises", "median:badlen",
+    "last:u1@bool", "sum_t:badlen", "cumsum:badmask", "apply_t:raises", "median:badlen", "cumcount@bool",
 }
 
 
